@@ -1,4 +1,4 @@
-(* OpPoint: hand-written executable model of Pipeline.find_operating_point (after the repair 6233bcf): the feasibility
+(* OpPoint: hand-written executable model of Pipeline.find_operating_point (after the repairs 6233bcf, 73268bd): the feasibility
    test at the minimum-friction flow; scipy.optimize.root_scalar(f, x0=, x1=) = newton()'s secant branch
    (tol = 1.48e-8, rtol = 0, maxiter = 50, disp = False), written out, inside a try that swallows an IndexError raised
    by an evaluation of the head gap; its result is accepted when it converged at or right of the minimum-friction flow;
@@ -63,6 +63,7 @@ Definition heads_equal (hs hp : T) : bool :=
    bconv, broot : the answer of the bracketing solver; hs_b, hp_b : the two heads at broot *)
 Definition find_operating_point (qimin qlast hsys hpump : T) (bconv : bool) (broot hs_b hp_b : T) : outcome * list T :=
   if nltb N hpump hsys then (OperatingPointError, [])
+  else if nleb N qlast qimin then (OperatingPointError, [])      (* the minimum-friction flow is the largest flow (repair 73268bd) *)
   else
     let x1 := ndiv N (nadd N qimin qlast) (nint N 2%Z) in
     if neqb N x1 qimin then (ValueError, [])
